@@ -147,7 +147,7 @@ def load_hist(path, i):
     return None
 
 
-def judge(ctx, path, bad, T):
+def judge(ctx, path, bad, T, stale_defect=False):
     """Harness results -> verdicts. `viol` rows are verdict-bearing (re-run once from scratch);
     `diverged` / `hang` / `inconclusive` rows are counted and make the run inconclusive."""
     soft = []
@@ -170,7 +170,7 @@ def judge(ctx, path, bad, T):
             continue
         what = "%s (step %d): %s%s" % (v["kind"], v.get("step", -1), v["what"],
                                        (" expected %s, real cluster returned %s" % (v.get("exp"), v.get("act"))) if v.get("exp") or v.get("act") else "")
-        if b.get("tainted"):
+        if b.get("tainted") and stale_defect:
             ctx.report(TAINT_SIG, "%s [after %s]" % (what, b["tainted"]), rep)
         else:
             ctx.report("C07 %s: %s" % (v["kind"], v["sig"]), what, rep)
@@ -240,6 +240,8 @@ def run(ctx):
     # 2. directed scripts of the named deviation (frames lacking a peer leaseholder's series)
     obs = directed(ctx)
     sync_partial_ok = not obs.get("sync_hangs")
+    # the tree still has the (fixed) stale re-send defect: violations of scripts that contain such a frame are attributed to it
+    stale_defect = (obs.get("nosync_peer_samples") or 0) > 1
     if obs.get("nosync_peer_samples") != 1 or obs.get("nosync_iter"):
         dup = (obs.get("nosync_peer_samples") or 0) > 1
         ctx.report(TAINT_SIG if dup else "C07 directed script: cluster differs from the single-node store",
@@ -292,7 +294,7 @@ def run(ctx):
         for k, v in summ.items():
             if isinstance(v, int) and k not in ("summary",):
                 stats[k] = stats.get(k, 0) + v
-        soft += judge(ctx, hp, bad, T)
+        soft += judge(ctx, hp, bad, T, stale_defect=stale_defect)
         # 4. recorded commit protocols validated against the trace spec
         if tp:
             with open(tp) as f:
